@@ -40,7 +40,8 @@ def gen(prop: str, rng: random.Random, tier: str) -> Dict[str, Any]:
         "chunks": rng.choice([1, 2, 3]), "len_seed": rng.randrange(1000), "max_len": rng.choice([1, 2, 3, 6]), "ending": rng.choice(["term", "trunc", "mixed"]),
     }
     if algo == "IPPO":
-        case["groups"] = rng.choice([[1], [2], [3], [1, 1], [2, 1], [1, 2]])  # agents per shared policy
+        case["groups"] = rng.choice([[1], [2], [3], [1, 1], [2, 1], [1, 2], [3, 2], [12], [11, 2]])  # agents per shared policy ("x_10" sorts before "x_2")
+        case["id_order"] = rng.choice(["natural", "natural", "reversed", "interleaved"])  # order in which the environment lists its agents
     if not case["vectorised"]:
         case["E"] = 1
     case["ops"] = [{"op": "learn", "seed": rng.getrandbits(31)} for _ in range(1 if mode == "loop" else rng.choice([1, 1, 2]))]
@@ -125,7 +126,7 @@ def run(prop: str, case: Dict[str, Any]) -> Dict[str, Any]:
     torch.set_num_threads(1)
     ctx = kernel.Ctx(prop, case)
     loc = {"algo": case["algo"], "mode": case["mode"]}
-    ctx.log("world", "config", {k: case.get(k) for k in ("algo", "mode", "T", "E", "obs_kind", "act_kind", "gamma", "gae_lambda", "done_pattern", "groups", "batch_size",
+    ctx.log("world", "config", {k: case.get(k) for k in ("algo", "mode", "T", "E", "obs_kind", "act_kind", "gamma", "gae_lambda", "done_pattern", "groups", "id_order", "batch_size",
                                                           "chunks", "max_len", "ending", "len_seed", "seed")})
     try:
         if case["algo"] == "PPO" and case["mode"] == "loop":
@@ -348,6 +349,16 @@ def _run_ippo_learn(ctx, case, loc) -> None:
     names = ["x", "y", "z"]
     for gi, k in enumerate(groups):
         ids += [f"{names[gi]}_{j}" for j in range(k)]
+    order = case.get("id_order", "natural")
+    if order == "reversed":
+        ids = ids[::-1]
+    elif order == "interleaved":
+        per = [[a for a in ids if a.startswith(n + "_")] for n in names[:len(groups)]]
+        ids = [p[j] for j in range(max(groups)) for p in per if j < len(p)]
+    if order != "natural" and len(ids) > 1:
+        ctx.probe("agent_ids_not_sorted")
+    if max(groups) > 10:
+        ctx.probe("more_than_ten_agents_share_a_policy")
     obs_space = gym_obs_space(case["obs_kind"])
     act_space = spaces.Discrete(4) if case["act_kind"] == "discrete" else spaces.Box(-1.0, 1.0, (2,), np.float32)
     seed_all(case["seed"])
@@ -412,7 +423,7 @@ def _run_ippo_learn(ctx, case, loc) -> None:
             if len(got) != len(tables):
                 raise kernel.HarnessError(f"minibatch seam: expected {len(tables)} recorded policy updates, got {len(got)}")
             for gi, (g, table) in enumerate(zip(got, tables)):
-                _check_rows(ctx, loc, g, table, obs_space, f"IPPO policy '{agent.shared_agent_ids[gi]}' shared by {groups[gi]} agent(s) (T={T}, envs={E})")
+                _check_rows(ctx, loc, g, table, obs_space, f"IPPO policy '{agent.shared_agent_ids[gi]}' shared by {len(table) // max(1, T * E)} agent(s) (T={T}, envs={E}, ids {ids})")
             if max(groups) > 1:
                 ctx.probe("policy_shared_by_several_agents")
             if dones_all[1:].any() if T > 1 else False:
